@@ -1,26 +1,40 @@
 #!/usr/bin/env python3
-"""Writes seeded/SUMMARY.md and patches the table into DESIGN.md from seeded/*/meta.json."""
+"""Writes seeded/SUMMARY.md and patches the table into DESIGN.md from seeded/*/meta.json.
+
+Per seed: the result of the latest run of each check (the newest run is in `checks`,
+earlier runs of other checks are kept under `history`)."""
 import json, os, glob, re
 rows = []
-for d in sorted(glob.glob('/verif/seeded/*/meta.json')):
+for d in sorted(glob.glob('/verif/seeded/C*/meta.json')):
     j = json.load(open(d))
     name = os.path.basename(os.path.dirname(d))
-    ch = j.get('checks') or {}
-    det = [k for k, v in ch.items() if isinstance(v, dict) and v.get('detected')]
-    inc = [k for k, v in ch.items() if isinstance(v, dict) and v.get('exit') == 2]
-    miss = [k for k, v in ch.items() if isinstance(v, dict) and v.get('exit') == 0]
-    tier = next((v.get('tier') for v in ch.values() if isinstance(v, dict)), '')
-    rows.append((name, j.get('confirmed'), (j.get('summary') or '').replace('|', '/').replace('\n', ' ')[:200], det, inc, miss, tier, ch.get('error', '')))
-lines = ['| Seed | Confirmed | Change | Caught by | Inconclusive | Not caught by |', '|---|---|---|---|---|---|']
-for n, c, s, det, inc, miss, tier, err in rows:
-    lines.append(f"| {n} | {'yes' if c else 'no'} | {s} | {', '.join(det) or '—'} | {', '.join(inc) or ''} | {', '.join(miss) or ('patch does not apply' if err else '')} |")
-ndet = sum(1 for r in rows if r[3])
-txt = f"Seeded changes: {len(rows)}; caught by at least one registered check ({rows[0][6] if rows else ''} tier): {ndet}.\n\n" + '\n'.join(lines) + '\n'
+    prop = name.split('-')[0]
+    latest = {}
+    for h in (j.get('history') or []):
+        for k, v in ((h or {}).get('checks') or {}).items():
+            if isinstance(v, dict):
+                latest[k] = v
+    for k, v in (j.get('checks') or {}).items():
+        if isinstance(v, dict):
+            latest[k] = v
+    own = latest.get(prop)
+    own_s = '—'
+    if own:
+        own_s = 'caught' if own.get('detected') else ('inconclusive' if own.get('exit') == 2 else 'MISSED')
+    others = [k for k, v in latest.items() if k != prop and v.get('detected')]
+    rows.append((name, 'r2' if name.endswith('-r2') else 'r1', j.get('confirmed'), (j.get('summary') or '').replace('|', '/').replace('\n', ' ')[:160], own_s, others, bool(own and own.get('detected')) or bool(others)))
+lines = ['| Seed | Round | Confirmed | Change | Check of its own property | Other checks that catch it |', '|---|---|---|---|---|---|']
+for n, r, c, s, own, others, _ in rows:
+    lines.append(f"| {n} | {r} | {'yes' if c else 'no'} | {s} | {own} | {', '.join(sorted(others))} |")
+def cnt(r, f):
+    return sum(1 for x in rows if x[1] == r and f(x))
+txt = ''
+for r in ('r1', 'r2'):
+    txt += (f"Round {r[1]}: {cnt(r, lambda x: True)} seeded changes, {cnt(r, lambda x: x[2])} confirmed; caught by the quick check of their own property: "
+            f"{cnt(r, lambda x: x[4] == 'caught')}; caught by at least one quick check: {cnt(r, lambda x: x[6])}.\n")
+txt += '\n' + '\n'.join(lines) + '\n'
 open('/verif/seeded/SUMMARY.md', 'w').write('# Seeded changes and the checks that catch them\n\n' + txt)
 d = open('/verif/DESIGN.md').read()
-if 'SEED_TABLE_PLACEHOLDER' in d:
-    d = d.replace('SEED_TABLE_PLACEHOLDER', '<!-- seed-table -->\n' + txt + '<!-- /seed-table -->')
-else:
-    d = re.sub(r'<!-- seed-table -->.*<!-- /seed-table -->', lambda m: '<!-- seed-table -->\n' + txt + '<!-- /seed-table -->', d, flags=re.S)
+d = re.sub(r'<!-- seed-table -->.*<!-- /seed-table -->', lambda m: '<!-- seed-table -->\n' + txt + '<!-- /seed-table -->', d, flags=re.S)
 open('/verif/DESIGN.md', 'w').write(d)
-print(txt[:200])
+print(txt[:400])
